@@ -1920,3 +1920,230 @@ def check_no_persistent_buffers(ctx, rule: str, module_paths, floor: int = 0) ->
                                   'part of it: what an earlier call stored outside that part is still there' % (a, norm(node)[:60]),
                                   fn.path, node.lineno, operand='buffer:' + a)
     return n
+
+
+# ---------------------------------------------------------------------------------------------------------------
+def shared_memo_hazards(model, module_paths):
+    """[(node, class, dict name, why)] for dictionaries defined at CLASS level (one object shared by all instances and by all
+    subclasses) that methods fill as a memo:
+      * 'instance-data'  the stored value is computed from `self.<attribute>` data that is not part of the key - instances that agree
+                         on the key but differ in that attribute (e.g. two subclasses with the same M) share one entry;
+      * 'two-writers'    two different functions store entries under keys of the same form - each will find the other's entries."""
+    from .astutil import return_dependences
+    out = []
+    for path in module_paths:
+        mod = model.module(path)
+        for c in mod.classes.values():
+            shared = {k for k, v in c.class_attrs.items() if isinstance(v, (ast.Dict,)) or (isinstance(v, ast.Call) and norm(v.func) in ('dict', 'OrderedDict'))}
+            if not shared:
+                continue
+            users = [c] + model.subclasses(c)
+            writers = {}
+            for u in users:
+                for fn in list(u.methods.values()) + list(u.getters.values()) + list(u.setters.values()):
+                    sn = fn.self_name
+                    for n in walk_no_nested(fn.node):
+                        if not (isinstance(n, ast.Assign) and len(n.targets) == 1 and isinstance(n.targets[0], ast.Subscript)):
+                            continue
+                        t = n.targets[0]
+                        base = t.value
+                        nm = base.attr if isinstance(base, ast.Attribute) and isinstance(base.value, ast.Name) and \
+                            (base.value.id in (sn, 'cls') or base.value.id in model.classes) else None
+                        if nm not in shared:
+                            continue
+                        writers.setdefault(nm, []).append((fn, n))
+                        # dependences of the stored value on instance data
+                        if sn is None:
+                            continue
+                        from .astutil import single_locals, expand
+                        val = expand(n.value, single_locals(fn))
+                        key_attrs = {x.attr for x in ast.walk(t.slice) if isinstance(x, ast.Attribute) and isinstance(x.value, ast.Name) and x.value.id == sn}
+                        used = {x.attr for x in ast.walk(val) if isinstance(x, ast.Attribute) and isinstance(x.value, ast.Name) and x.value.id == sn
+                                and isinstance(x.ctx, ast.Load)} - {nm}
+                        extra = sorted(used - key_attrs)
+                        if extra:
+                            out.append((n, c, nm, 'instance-data', 'the value stored under `%s` is computed from self.%s, which is not part of the key: '
+                                        'instances (and subclasses) that agree on the key but differ there share one entry' % (norm(t.slice)[:30], ', self.'.join(extra))))
+            for nm, ws in writers.items():
+                fns = {w[0].qualname for w in ws}
+                if len(fns) > 1:
+                    w = ws[-1]
+                    out.append((w[1], c, nm, 'two-writers', 'the class-level dictionary `%s` is filled by %s: each finds the entries the other stored under '
+                                'the same key' % (nm, ' and '.join(sorted(fns)))))
+    return out
+
+
+def check_shared_memos(ctx, rule: str, module_paths, floor: int = 0) -> int:
+    ctx.rule(rule, 'a dictionary defined at class level (shared by all instances and subclasses) that is filled as a memo has one writer, and its '
+                   'entries depend on nothing but the key', floor=floor)
+    M = ctx.model
+    n = 0
+    for path in module_paths:
+        for c in M.module(path).classes.values():
+            ctx.instance(rule, c.name)
+            n += 1
+    hits = shared_memo_hazards(M, module_paths)
+    flagged = {h[1].name for h in hits}
+    for path in module_paths:
+        for c in M.module(path).classes.values():
+            ctx.obligation(rule, c.name, c.name not in flagged, None, nontrivial=any(isinstance(v, ast.Dict) for v in c.class_attrs.values()))
+    for node, c, nm, kind, why in hits[:2]:
+        ctx.violation(rule, '%s.%s' % (c.name, nm), why, c.module.path, node.lineno, operand='shared-memo:' + kind)
+    return n
+
+
+# ---------------------------------------------------------------------------------------------------------------
+def array_attrs(model, cls) -> set:
+    """attributes of the class family that hold numpy arrays (some stored value is a numpy call, a product, a view / copy of one)"""
+    out = set()
+    for c in [cls] + model.mro(cls)[1:] + model.subclasses(cls):
+        for fn in list(c.methods.values()) + list(c.setters.values()):
+            sn = fn.self_name
+            if sn is None:
+                continue
+            for n in walk_no_nested(fn.node):
+                if isinstance(n, (ast.Assign, ast.AnnAssign)) and getattr(n, 'value', None) is not None:
+                    for t in (n.targets if isinstance(n, ast.Assign) else [n.target]):
+                        if isinstance(t, ast.Attribute) and isinstance(t.value, ast.Name) and t.value.id == sn:
+                            v = n.value
+                            arr = any((isinstance(x, ast.Call) and (norm(x.func).startswith(('np.', 'numpy.')) or
+                                                                      (isinstance(x.func, ast.Attribute) and x.func.attr in ('dot', 'conj', 'conjugate', 'copy', 'transpose', 'reshape'))))
+                                      or (isinstance(x, ast.BinOp) and isinstance(x.op, ast.MatMult)) for x in ast.walk(v))
+                            if not arr and isinstance(v, ast.Call) and isinstance(v.func, ast.Attribute) and isinstance(v.func.value, ast.Name) \
+                                    and (v.func.value.id == sn or v.func.value.id in model.classes):
+                                g = model.lookup_method(c if v.func.value.id == sn else model.classes[v.func.value.id], v.func.attr)
+                                if g is not None:
+                                    arr = any(isinstance(x, ast.Call) and norm(x.func).startswith(('np.', 'numpy.')) for r in walk_no_nested(g.node)
+                                              if isinstance(r, ast.Return) and r.value is not None for x in ast.walk(r.value))
+                            if arr:
+                                out.add(t.attr)
+    return out
+
+
+INPLACE_DUNDER = {ast.Mult: '__imul__', ast.Add: '__iadd__', ast.Sub: '__isub__', ast.Div: '__itruediv__', ast.MatMult: '__imatmul__',
+                  ast.FloorDiv: '__ifloordiv__', ast.Pow: '__ipow__'}
+
+
+def alias_inplace_writes(model, fn: FuncInfo):
+    """(node, local, what it aliases): a local bound to a piece of stored state - `x = self.attr` with an array attribute, or
+    `x = obj.getter()` where every definition of that getter returns one of its attributes as it is - is then modified IN PLACE
+    (`x -= ..`, `x[..] = ..`, or `x *= ..` on an object whose class defines the in-place operator): the stored state changes under
+    the feet of its owner."""
+    sn = fn.self_name
+    idx = model.__dict__.get('_fn_by_name')
+    if idx is None:
+        idx = {}
+        for h in model.all_functions():
+            if h.kind != 'nested':
+                idx.setdefault(h.name, []).append(h)
+        model.__dict__['_fn_by_name'] = idx
+    arrs = array_attrs(model, fn.cls) if (fn.cls is not None and sn is not None) else set()
+    stmts = stmts_in_order(fn)
+    alias = {}
+    for s in stmts:
+        if isinstance(s, ast.Assign) and len(s.targets) == 1 and isinstance(s.targets[0], ast.Name):
+            name, v = s.targets[0].id, s.value
+            alias.pop(name, None)
+            if isinstance(v, ast.Attribute) and isinstance(v.value, ast.Name) and v.value.id == sn and v.attr in arrs:
+                alias[name] = ('array', 'self.' + v.attr)
+            elif isinstance(v, ast.Call) and isinstance(v.func, ast.Attribute) and not v.args and not v.keywords:
+                cands = [g for g in idx.get(v.func.attr, []) if g.cls is not None and g.kind in ('method', 'getter')]
+                # the receiver's class, when it is an attribute that the class family binds to a constructor call of a repository class
+                recv = v.func.value
+                if isinstance(recv, ast.Attribute) and isinstance(recv.value, ast.Name) and recv.value.id == sn and fn.cls is not None:
+                    ks = set()
+                    for c2 in [fn.cls] + model.mro(fn.cls)[1:] + model.subclasses(fn.cls):
+                        for h in list(c2.methods.values()) + list(c2.setters.values()):
+                            hs = h.self_name
+                            for n in walk_no_nested(h.node):
+                                if isinstance(n, (ast.Assign, ast.AnnAssign)) and getattr(n, 'value', None) is not None and isinstance(n.value, ast.Call):
+                                    for t in (n.targets if isinstance(n, ast.Assign) else [n.target]):
+                                        if isinstance(t, ast.Attribute) and isinstance(t.value, ast.Name) and t.value.id == hs and t.attr == recv.attr:
+                                            f2 = norm(n.value.func).split('.')[-1]
+                                            if f2 in model.classes:
+                                                ks.add(f2)
+                    if len(ks) == 1:
+                        g0 = model.lookup_method(model.classes[ks.pop()], v.func.attr)
+                        if g0 is not None:
+                            cands = [g0]
+                rets = []
+                for g in cands:
+                    rs = [r.value for r in walk_no_nested(g.node) if isinstance(r, ast.Return) and r.value is not None]
+                    gs = g.self_name
+                    if len(rs) == 1 and isinstance(rs[0], ast.Attribute) and isinstance(rs[0].value, ast.Name) and rs[0].value.id == gs:
+                        rets.append((g, rs[0].attr))
+                    else:
+                        rets = []
+                        break
+                if rets and len(rets) == len(cands):
+                    g, a = rets[0]
+                    # what kind of object is stored there?
+                    kinds = set()
+                    for c2 in [g.cls] + model.subclasses(g.cls):
+                        for h in list(c2.methods.values()) + list(c2.setters.values()):
+                            hs = h.self_name
+                            for n in walk_no_nested(h.node):
+                                if isinstance(n, ast.Assign) and any(isinstance(t, ast.Attribute) and isinstance(t.value, ast.Name) and t.value.id == hs
+                                                                     and t.attr == a for t in n.targets) and isinstance(n.value, ast.Call):
+                                    f2 = norm(n.value.func)
+                                    if f2 in model.classes:
+                                        kinds.add(f2)
+                                    elif f2.split('.')[-1] in model.classes:
+                                        kinds.add(f2.split('.')[-1])
+                                    elif f2.startswith(('np.', 'numpy.')):
+                                        kinds.add('array')
+                    ann = norm(g.node.returns).strip('\'"') if g.node.returns is not None else ''
+                    for piece in ann.replace('Optional[', '').replace(']', '').replace('"', '').replace("'", '').split('|'):
+                        if piece.strip().split('.')[-1] in model.classes:
+                            kinds.add(piece.strip().split('.')[-1])
+                        elif piece.strip() in ('np.ndarray', 'numpy.ndarray'):
+                            kinds.add('array')
+                    if a in array_attrs(model, g.cls):
+                        kinds.add('array')
+                    if kinds:
+                        alias[name] = (sorted(kinds)[0] if len(kinds) == 1 else 'array' if 'array' in kinds else sorted(kinds)[0],
+                                       '%s.%s (returned by %s)' % (g.cls.name, a, g.qualname))
+            continue
+        if isinstance(s, ast.AugAssign):
+            t = s.target
+            root = t
+            while isinstance(root, ast.Subscript):
+                root = root.value
+            if isinstance(root, ast.Name) and root.id in alias:
+                kind, what = alias[root.id]
+                if kind == 'array' or isinstance(t, ast.Subscript):
+                    yield s, root.id, what
+                else:
+                    k = model.classes.get(kind)
+                    d = INPLACE_DUNDER.get(type(s.op))
+                    if k is not None and d and any(d in c.methods for c in model.mro(k)):
+                        yield s, root.id, what
+        elif isinstance(s, ast.Assign):
+            for t in s.targets:
+                if isinstance(t, ast.Subscript):
+                    root = t.value
+                    while isinstance(root, ast.Subscript):
+                        root = root.value
+                    if isinstance(root, ast.Name) and root.id in alias and alias[root.id][0] == 'array':
+                        yield s, root.id, alias[root.id][1]
+
+
+def check_no_alias_inplace(ctx, rule: str, module_paths, floor: int = 0) -> int:
+    ctx.rule(rule, 'stored state reached through a local alias (`x = self.attr`, `x = obj.getter()` returning an attribute as it is) is not modified '
+                   'in place (`x -= ..`, `x[..] = ..`, `x *= ..` on a class with the in-place operator)', floor=floor)
+    M = ctx.model
+    n = 0
+    for path in module_paths:
+        mod = M.module(path)
+        fns = [f for c in mod.classes.values() for f in list(c.methods.values()) + list(c.getters.values()) + list(c.setters.values())]
+        for fn in fns:
+            construct = fn.qualname
+            ctx.instance(rule, construct)
+            n += 1
+            hits = list(alias_inplace_writes(M, fn))
+            ctx.obligation(rule, construct, not hits, {'in_place': [(h[1], h[2]) for h in hits]} if hits else None,
+                           nontrivial=any(isinstance(x, ast.AugAssign) for x in ast.walk(fn.node)))
+            for node, name, what in hits[:1]:
+                ctx.violation(rule, construct, '`%s` modifies in place the local `%s`, which IS %s: the stored state of its owner changes with it'
+                              % (norm(node)[:50], name, what), fn.path, node.lineno, operand='alias-inplace:' + name)
+    return n
